@@ -776,6 +776,11 @@ bool
 Pointset_Powerset<PSET>
 ::simplify_using_context_assign(const Pointset_Powerset& y) {
   Pointset_Powerset& x = *this;
+  if (&x == &y) {
+    // The disjuncts of `x' are modified while those of `y' are read.
+    const Pointset_Powerset y_copy(y);
+    return x.simplify_using_context_assign(y_copy);
+  }
 
   // Omega reduction is required.
   // TODO: check whether it would be more efficient to Omega-reduce x
@@ -1386,6 +1391,12 @@ BGP99_extrapolation_assign(const Pointset_Powerset& y,
                            unsigned max_disjuncts) {
   // `x' is the current iteration value.
   Pointset_Powerset& x = *this;
+  if (&x == &y) {
+    // `x' is modified before `y' is read.
+    const Pointset_Powerset y_copy(y);
+    x.BGP99_extrapolation_assign(y_copy, widen_fun, max_disjuncts);
+    return;
+  }
 
 #ifndef NDEBUG
   {
